@@ -894,7 +894,8 @@ func TestSynFlood(t *testing.T) {
 	// "same" = one SYN retransmitted n times (a state per SYN, cheap lookups: the table
 	// fills within the 30 s after which the listener starts recycling slots);
 	// "distinct" = n address/port pairs (slower: the table is full after ~50 s here)
-	floods := []fl{{70000, "same"}, {70000, "distinct"}, {5000, "distinct"}, {100, "same"}}
+	// quick tier: the full flood in its cheap form, the distinct-pairs form up to what fits the budget
+	floods := []fl{{70000, "same"}, {25000, "distinct"}, {5000, "distinct"}, {100, "same"}}
 	if r.Thorough() {
 		floods = []fl{{70000, "same"}, {70000, "distinct"}, {65536, "same"}, {65535, "same"}, {65534, "same"}, {20000, "distinct"}, {5000, "distinct"}, {5000, "same"}, {100, "distinct"}, {1, "same"}}
 	}
